@@ -327,9 +327,22 @@ func checkC18(c *Ctx) {
 	}
 	// value is the configured config, directly or via s.tlsConfig stored from it
 	var isCfg func(v ssa.Value, depth int) bool
+	partOfRun := func(f *ssa.Function) bool {
+		if f == run {
+			return true
+		}
+		ok, _ := syncOnlyFrom(f, run, c.shippedFuncs(G), 0)
+		return ok
+	}
 	isCfg = func(v ssa.Value, depth int) bool {
 		if isCfgLoad2(v) {
 			return true
+		}
+		// parameter of a helper of Run with a single call site: the argument given there
+		if p, ok := an.Strip(v).(*ssa.Parameter); ok {
+			if a, ok := an.UniqueCallerArg[p]; ok && partOfRun(p.Parent()) {
+				return isCfg(a, depth)
+			}
 		}
 		if depth > 2 {
 			return false
@@ -340,7 +353,7 @@ func checkC18(c *Ctx) {
 			good := true
 			for _, fs := range fieldStores(c.shippedFuncs(G), G, "Server", "tlsConfig") {
 				n++
-				if fs.Fn != run || !isCfg(fs.Store.Val, depth+1) || !an.InstrDominates(fs.Store, ld) {
+				if !partOfRun(fs.Fn) || !isCfg(fs.Store.Val, depth+1) || fs.Fn != ld.Parent() || !an.InstrDominates(fs.Store, ld) {
 					good = false
 				}
 			}
@@ -348,6 +361,8 @@ func checkC18(c *Ctx) {
 		}
 		return false
 	}
+	var wrapStoreG *ssa.Store   // the store that installs the TLS listener
+	var wrapAtG ssa.Instruction // where that happens in Run (the store or the helper call)
 	guards := ifsOn(run, func(v ssa.Value) bool {
 		x, _, ok := an.NilCheck(v)
 		return ok && isCfgLoad2(x)
@@ -361,7 +376,14 @@ func checkC18(c *Ctx) {
 		withTLS := succOn(gd.If, trueMeansNil == gd.Neg)
 		// stores to s.listener
 		var wrapStore *ssa.Store
-		for _, fs := range fieldStores([]*ssa.Function{run}, G, "Server", "listener") {
+		// the wrap happens in Run or in a helper that runs only as part of Run
+		var wrapFns []*ssa.Function
+		for _, f := range c.shippedFuncs(G) {
+			if partOfRun(f) {
+				wrapFns = append(wrapFns, f)
+			}
+		}
+		for _, fs := range fieldStores(wrapFns, G, "Server", "listener") {
 			call, ok := an.Strip(fs.Store.Val).(*ssa.Call)
 			if ok && an.CalleeIs(call.Common(), "crypto/tls", "NewListener") {
 				if wrapStore != nil {
@@ -379,10 +401,26 @@ func checkC18(c *Ctx) {
 				R.Check(innerOK && cfgOK, "C18-wrap", "(*Server).Run: tls.NewListener(plain listener, configured tls.Config)", c.pos(call), "wraps s.listener with exactly the WithTLSConfig value", sprintf("TLS listener is not built from the plain listener and the caller's config (listener=%v config=%v: %s)", innerOK, cfgOK, an.Path(call.Common().Args[1])))
 			}
 		}
-		if wrapStore == nil {
+		// the instruction of Run at which the TLS listener gets installed: the store, or the call of the helper holding it
+		var wrapAt ssa.Instruction = wrapStore
+		if wrapStore != nil && wrapStore.Parent() != run {
+			wrapAt = nil
+			h := wrapStore.Parent()
+			for _, ci := range an.Calls(run) {
+				if an.StaticCallee(ci.Common()) == h && isCall(ci) {
+					wrapAt = ci
+				}
+			}
+			// inside the helper every path installs it
+			if wrapAt != nil && an.Search(an.Entry(h), an.IsReturn, isInstr(wrapStore)) != nil {
+				R.Fail("C18-wrap", "(*Server).Run: TLS listener installed when configured", c.pos(wrapStore), fname(h)+" can return without installing the TLS listener")
+			}
+		}
+		wrapStoreG, wrapAtG = wrapStore, wrapAt
+		if wrapStore == nil || wrapAt == nil {
 			R.Fail("C18-wrap", "(*Server).Run: TLS listener installed when configured", c.pos(gd.If), "no store of tls.NewListener(...) into s.listener")
 		} else {
-			if w := an.Search(an.Point{B: withTLS, I: 0}, isInstr(m.accept), isInstr(wrapStore)); w != nil {
+			if w := an.Search(an.Point{B: withTLS, I: 0}, isInstr(m.accept), isInstr(wrapAt)); w != nil {
 				R.Fail("C18-wrap", "(*Server).Run: TLS listener installed when configured", c.pos(wrapStore), "with a TLS config a path reaches Accept without installing the TLS listener: "+c.trail(w))
 			} else if an.Search(an.Entry(run), isInstr(m.accept), isInstr(gd.If)) != nil {
 				R.Fail("C18-wrap", "(*Server).Run: TLS listener installed when configured", c.pos(gd.If), "a path reaches Accept without testing for a TLS config")
@@ -398,7 +436,7 @@ func checkC18(c *Ctx) {
 				_, ok = fieldAddr(st.Addr, G, "Server", "listener")
 				return ok
 			}
-			if w := an.Search(an.After(wrapStore), later, nil); w != nil {
+			if w := an.Search(an.After(wrapAt), later, nil); w != nil {
 				R.Fail("C18-wrap", "(*Server).Run: TLS listener not replaced", c.pos(wrapStore), "s.listener is assigned again after the TLS wrap: "+c.trail(w))
 			} else {
 				R.OK("C18-wrap", "(*Server).Run: TLS listener not replaced", c.pos(wrapStore), "no later store to s.listener")
@@ -410,7 +448,8 @@ func checkC18(c *Ctx) {
 		if fs.Fn == run {
 			continue
 		}
-		// a helper that runs only as a synchronous part of Run and only before the TLS wrap (e.g. the listen itself)
+		// a helper that runs only as a synchronous part of Run: either the one that installs the TLS listener (judged
+		// above), or one that runs only before the TLS listener is installed (e.g. the listen itself)
 		okHelper := false
 		if ok, _ := syncOnlyFrom(fs.Fn, run, c.shippedFuncs(G), 0); ok {
 			okHelper = true
@@ -418,10 +457,14 @@ func checkC18(c *Ctx) {
 				if an.StaticCallee(ci.Common()) != fs.Fn {
 					continue
 				}
-				for _, ws := range fieldStores([]*ssa.Function{run}, G, "Server", "listener") {
-					if an.Search(an.After(ws.Store), isInstr(ci), nil) != nil {
-						okHelper = false
-					}
+				if an.Search(an.After(ci), isInstr(ci), nil) != nil {
+					okHelper = false // re-entered (in a loop)
+				}
+				if fs.Store == wrapStoreG {
+					continue
+				}
+				if wrapAtG != nil && an.Search(an.After(wrapAtG), isInstr(ci), nil) != nil {
+					okHelper = false // replaces the listener after the TLS wrap
 				}
 			}
 		}
@@ -488,11 +531,17 @@ func (c *Ctx) checkDirectoryTLS() {
 	}
 	// the server config: first result of GetTLSConfig
 	rets := an.Returns(getTLS)
-	if len(rets) != 1 {
-		R.Unknown("C18-directory", "GetTLSConfig: single return", c.P.Pos(getTLS.Pos()), "several returns")
+	if len(rets) == 0 {
+		R.Unknown("C18-directory", "GetTLSConfig: returns", c.P.Pos(getTLS.Pos()), "no return")
 		return
 	}
 	srv := an.Strip(an.ReturnResults(rets[0])[0])
+	for _, ret := range rets[1:] {
+		if an.Strip(an.ReturnResults(ret)[0]) != srv {
+			R.Unknown("C18-directory", "GetTLSConfig: one server config", c.pos(ret), "different returns hand out different server configs")
+			return
+		}
+	}
 	srvAlloc, ok := srv.(*ssa.Alloc)
 	if !ok || !an.TypeIs(srvAlloc.Type(), "crypto/tls", "Config") {
 		R.Unknown("C18-directory", "GetTLSConfig: server config literal", c.pos(rets[0]), "server config is not a local &tls.Config{...}")
@@ -646,11 +695,63 @@ func (c *Ctx) checkDirectoryTLS() {
 					_, names := an.FieldChain(v)
 					return len(names) >= 1 && names[len(names)-1] == "withNoTLS"
 				}
-				if good && hasFact(ap.Block(), false, noTLS) {
+				// the test may be on withNoTLS itself or on a field of the new Directory that Start set from it
+				// just before (d.useTLS = !opts.withNoTLS; if d.useTLS {...})
+				resolve := func(v ssa.Value) (ssa.Value, bool) {
+					neg := false
+					for i := 0; i < 4; i++ {
+						inner, n := an.Not(v)
+						if n {
+							neg = !neg
+						}
+						v = inner
+						ld, ok := v.(*ssa.UnOp)
+						if !ok || ld.Op != token.MUL {
+							break
+						}
+						fa, ok := ld.X.(*ssa.FieldAddr)
+						if !ok || !an.TypeIs(fa.X.Type(), TD, "Directory") {
+							break
+						}
+						fss := fieldStores(c.shippedFuncs(TD), TD, "Directory", an.FieldAddrName(fa))
+						if len(fss) != 1 || fss[0].Fn != start || !an.InstrDominates(fss[0].Store, ld) {
+							break
+						}
+						if _, fresh := an.Strip(fa.X).(*ssa.Alloc); !fresh {
+							break
+						}
+						v = fss[0].Store.Val
+					}
+					return v, neg
+				}
+				noTLSFact := func(b *ssa.BasicBlock) bool { // b is reached only with withNoTLS == false
+					for _, fct := range an.BranchFacts(b) {
+						v, neg := resolve(fct.Cond)
+						if noTLS(v) && (fct.True != neg) == false {
+							return true
+						}
+					}
+					return false
+				}
+				var tlsIfs []*ssa.If
+				var tlsSuccs []*ssa.BasicBlock
+				an.Instrs(start, func(in ssa.Instruction) {
+					if iff, ok := in.(*ssa.If); ok {
+						if v, neg := resolve(iff.Cond); noTLS(v) {
+							tlsIfs = append(tlsIfs, iff)
+							// successor taken when withNoTLS is false
+							if neg {
+								tlsSuccs = append(tlsSuccs, iff.Block().Succs[0])
+							} else {
+								tlsSuccs = append(tlsSuccs, iff.Block().Succs[1])
+							}
+						}
+					}
+				})
+				if good && noTLSFact(ap.Block()) {
 					// every path with !withNoTLS to the Run go passes the append
-					ifs := ifsOn(start, noTLS)
-					if len(ifs) == 1 {
-						tlsSucc := succOn(ifs[0].If, ifs[0].Neg)
+					if len(tlsIfs) >= 1 {
+						tlsSucc := tlsSuccs[0]
 						var goRun ssa.Instruction
 						for _, ci := range an.Calls(start) {
 							if g, ok := ci.(*ssa.Go); ok {
@@ -671,7 +772,7 @@ func (c *Ctx) checkDirectoryTLS() {
 		}
 	}
 	R.Check(okStart, "C18-directory", "testdirectory.Start: Run receives WithTLSConfig(GetTLSConfig's server config) unless WithNoTLS", c.pos(runCall), "connOpts = append(connOpts, gldap.WithTLSConfig(d.server)) on every path without withNoTLS; d.server is GetTLSConfig(t, opt...)'s first result", "cannot show that a TLS directory passes its server config (with the mTLS policy) to Run: "+detail)
-	R.Floor("C18-directory", 4)
+	R.Floor("C18-directory", 3)
 }
 
 // derivesFromSelfSignedCA: v is bytes of a buffer that pem.Encode filled from
@@ -1056,7 +1157,7 @@ func checkC07(c *Ctx) {
 			}
 		}
 	}
-	R.Floor("C07-lockbalance", 10)
+	R.Floor("C07-lockbalance", 4)
 	R.Extra["C07-lockbalance/unlock-sites"] = nUnl
 	R.NotDecided = append(R.NotDecided, "that bystander connections keep receiving correct responses (behavioural)", "resource exhaustion inside libraries")
 }
@@ -1284,7 +1385,7 @@ func checkC11(c *Ctx) {
 			}
 		}
 	}
-	R.Floor("C11-sites", 3)
+	R.Floor("C11-sites", 2)
 
 	// ---- C11-waker
 	type waker struct {
